@@ -357,7 +357,7 @@ PROPS["C12"] = dict(
 )
 
 PROPS["C17"] = dict(
-    level="model_checking",
+    level="exploration",
     budget_s=dict(quick=150, thorough=1500),
     parts=[dict(name="slices_and_views", bin="C17", flavour="plain")],
     manifest=dict(
@@ -371,8 +371,7 @@ PROPS["C17"] = dict(
         note="Exclusive slices with start == end exactly on a coordinate return that element: the repository's test suite pins it (BaseTestDataAccess.cpp:760), so it is a listed known "
              "finding rather than a fix. Zero-count requests are only asserted to transfer nothing."),
     evidence=dict(
-        keys=dict(states=("distinct", "outcomes"), transitions=("sum", [("count", "view_reads"), ("count", "view_writes")]), traces_validated_against_impl=("count", "view_pairs"),
-                  evaluations=("sum", [("count", "slices"), ("count", "view_reads"), ("count", "view_writes"), ("count", "constructions")]), distinct_nontrivial=("distinct", "outcomes")),
+        keys=dict(evaluations=("sum", [("count", "slices"), ("count", "view_reads"), ("count", "view_writes"), ("count", "constructions")]), distinct_nontrivial=("distinct", "outcomes")),
         rule="(a) grid of array configurations x modes x start/end tuples vs linear-scan reference over library-reported coordinates; (b) every window x every request, whole-array "
              "compare with the model after every operation; distinct_nontrivial = distinct (axis kinds, length, mode, expected class, outcome) and (rank, call site, request class, outcome) tuples.",
         bound=dict(quick="rank 1: 20 descriptors x extents {1,2,5}; rank 2: 16 kind pairs; rank 3: 64 triples x 5 pairs per axis; views: all windows, pairs on small windows", thorough="all extents 1..5, parameter picks, 8 pairs per axis; all write->read pairs on all 60 windows"),
